@@ -5,6 +5,7 @@ package c03
 import (
 	"fmt"
 	"math/rand"
+	"sync"
 	"sync/atomic"
 	"time"
 
@@ -639,7 +640,7 @@ func RunScenario(sc *Scenario) (fs []finding, obs map[string]int, err error) {
 func wrapAround(r *monitor.Run) {
 	b, err := broker.Start(broker.Options{Cfg: func(c *config.Config) {
 		c.MQTT.MaxInflight = 3
-		c.MQTT.MaxQueuedMsg = 80000
+		c.MQTT.MaxQueuedMsg = 140000
 		c.MQTT.MessageExpiry = 0
 		c.MQTT.InflightExpiry = 0
 	}})
@@ -655,7 +656,7 @@ func wrapAround(r *monitor.Run) {
 	}
 	defer c.Close()
 	var held uint32 // id held unacknowledged
-	var count, reuse, zero, maxID int64
+	var count, reuse, zero, maxID, heldMax int64
 	c.AutoAck = true
 	c.OnPublish = func(p *mqttx.Packet) bool {
 		n := atomic.AddInt64(&count, 1)
@@ -669,7 +670,10 @@ func wrapAround(r *monitor.Run) {
 			atomic.StoreUint32(&held, uint32(p.PacketID))
 			return false // never acknowledge the first message
 		}
-		if uint32(p.PacketID) == atomic.LoadUint32(&held) {
+		if p.PacketID == 65535 && atomic.CompareAndSwapInt64(&heldMax, 0, 1) {
+			return false // nor the one that got the largest identifier: the counter has to step over it at the wrap
+		}
+		if uint32(p.PacketID) == atomic.LoadUint32(&held) || (p.PacketID == 65535 && n > 65536) {
 			atomic.AddInt64(&reuse, 1)
 		}
 		return true
@@ -682,7 +686,7 @@ func wrapAround(r *monitor.Run) {
 		r.Inconclusive(err.Error())
 		return
 	}
-	const N = 70000
+	const N = 135000 // two trips through the identifier space
 	for i := 0; i < N; i++ {
 		b.Srv.Publisher().Publish(&gmqtt.Message{Topic: "w", Payload: []byte(fmt.Sprintf("w/%d", i)), QoS: 1})
 	}
@@ -699,7 +703,7 @@ func wrapAround(r *monitor.Run) {
 		return
 	}
 	if atomic.LoadInt64(&reuse) > 0 {
-		r.Violation("wrap.id_reuse", fmt.Sprintf("the packet id %d held unacknowledged was reused %d times after the id space wrapped", held, reuse), nil)
+		r.Violation("wrap.id_reuse", fmt.Sprintf("a packet id held unacknowledged (%d or 65535) was reused %d times after the id space wrapped", held, reuse), nil)
 	}
 	if atomic.LoadInt64(&zero) > 0 {
 		r.Violation("wrap.id_zero", "packet id 0 used after wrap-around", nil)
@@ -709,6 +713,11 @@ func wrapAround(r *monitor.Run) {
 
 // Run is the entry point.
 func Run(r *monitor.Run) {
+	// two trips through the packet identifier space, alongside the scenarios
+	var wrap sync.WaitGroup
+	wrap.Add(1)
+	go func() { defer wrap.Done(); wrapAround(r) }()
+	defer wrap.Wait()
 	n := r.Pick(160, 3000)
 	rng := r.Rand("scripts")
 	scs := make([]Scenario, n)
@@ -744,7 +753,4 @@ func Run(r *monitor.Run) {
 			r.Sample(sc)
 		}
 	})
-	if !r.Quick() {
-		wrapAround(r)
-	}
 }
